@@ -157,8 +157,54 @@ def match_dict_case(rng):
     return {'target': {'k': 'dict', 'od': False, 'id': 1, 'items': items}, 'spec': spec, 'scope': [], 'repeat': True}
 
 
+def chain_target(d, base=10):
+    """{'n': 0, 'next': {'n': 1, 'next': ... }} of depth d, the last one without 'next'"""
+    cur = None
+    for i in reversed(range(d)):
+        items = [['n', i]] + ([['next', cur]] if cur is not None else [])
+        cur = {'k': 'dict', 'od': False, 'id': base + i, 'items': items}
+    return cur
+
+
+def ref_case(rng):
+    """Ref(name) resolves to the NEAREST enclosing Ref(name, spec) and may recurse; a definition is visible to what is nested in it
+    and to the later steps of its chain, not to sibling dict values; an undefined name fails"""
+    use = lambda n: ['Ref', n, None]  # noqa: E731
+    down = lambda n, dflt: ['Coalesce', [['Tuple', [['Str', 'next'], use(n)]]], ['Lit', dflt], None, None, None]  # noqa: E731
+    probe = lambda i: ['Fn', ['probe', i]]  # noqa: E731
+    k = rng.choice(['recursion', 'recursion', 'nearest', 'nearest', 'two-names', 'chained', 'sibling', 'unknown', 'shadow-later'])
+    t = chain_target(rng.randint(1, 4))
+    if k == 'recursion':
+        body = ['Dict', False, [[['Str', 'v'], ['Tuple', [probe(1), ['Str', 'n']]]], [['Str', 'rest'], down('r', 'end')]]]
+        if rng.random() < 0.5:
+            body = ['Tuple', [probe(2), body]]
+        spec = ['Ref', 'r', body]
+    elif k == 'nearest':
+        inner = ['Ref', 'r', ['Dict', False, [[['Str', 'i'], ['Str', 'n']], [['Str', 'rec'], down('r', 'inner-end')]]]]
+        spec = ['Ref', 'r', ['Dict', False, [[['Str', 'o'], ['Str', 'n']], [['Str', 'inner'], inner], [['Str', 'orec'], down('r', 'outer-end')]]]]
+    elif k == 'two-names':
+        inner = ['Ref', 'q', ['Dict', False, [[['Str', 'i'], ['Str', 'n']], [['Str', 'to-outer'], down('r', 'x')], [['Str', 'to-inner'], down('q', 'y')]]]]
+        spec = ['Ref', 'r', ['Dict', False, [[['Str', 'o'], ['Tuple', [probe(1), ['Str', 'n']]]], [['Str', 'inner'], ['Coalesce', [['Tuple', [['Str', 'next'], inner]]], ['Lit', 'none'], None, None, None]]]]]
+        t = chain_target(rng.randint(1, 3))
+    elif k == 'chained':
+        # the definition is made by an earlier step of the chain; the later step uses it on the next level
+        spec = ['Tuple', [['Ref', 'r', ['Dict', False, [[['Str', 'v'], ['Str', 'n']], [['Str', 'rest'], down('r', 'end')]]]], probe(1), ['Str', 'rest'], probe(2)]]
+        if rng.random() < 0.5:
+            spec = ['Tuple', [['Ref', 'r', ['Tuple', [['Str', 'n'], probe(1)]]], ['Val', chain_target(2, 50)], ['Str', 'next'], use('r')]]
+    elif k == 'sibling':
+        spec = ['Dict', False, [[['Str', 'a'], ['Ref', 'r', ['Str', 'n']]], [['Str', 'b'], ['Coalesce', [use('r')], ['Lit', 'not-visible'], None, None, ['KeyError', 'GlomError']]]]]
+    elif k == 'unknown':
+        spec = rng.choice([use('zz'), ['Tuple', [['Ref', 'r', ['Str', 'n']], ['Val', chain_target(2, 50)], use('rr')]], ['Ref', 'r', ['Dict', False, [[['Str', 'x'], use('q')]]]]])
+    else:
+        # a later step redefines the name: uses after it see the new definition, the first definition's own recursion keeps its own
+        spec = ['Tuple', [['Ref', 'r', ['Dict', False, [[['Str', 'first'], ['Str', 'n']], [['Str', 'rest'], down('r', 'e1')]]]],
+                          ['Val', chain_target(3, 50)], ['Ref', 'r', ['Dict', False, [[['Str', 'second'], ['Str', 'n']], [['Str', 'rest'], down('r', 'e2')]]]]]]
+    return {'target': t, 'spec': spec, 'scope': [], 'repeat': True}
+
+
 def generate(rng, tier):
     out = [match_dict_case(rng) for _ in range(60 if tier == 'quick' else 400)]
+    out += [ref_case(rng) for _ in range(80 if tier == 'quick' else 500)]
     n = 1200 if tier == 'quick' else 8000
     for _ in range(n):
         c = Ctx(rng)
